@@ -49,25 +49,28 @@ Done == /\ phase = "post" /\ phase' = "done"
 Next == AddPre \/ StartInner \/ AddInner \/ StartPost \/ AddPost \/ Done
 
 (* ------------------------------ reference semantics --------------------------------- *)
-Shift(r, b) == [ok |-> r.ok, term |-> [k \in 1..Len(r.term) |-> r.term[k] + b], log |-> [k \in 1..Len(r.log) |-> r.log[k] + b]]
+Shift(r, b) == [ok |-> r.ok, term |-> [k \in 1..Len(r.term) |-> r.term[k] + b], log |-> [k \in 1..Len(r.log) |-> r.log[k] + b], ab |-> r.ab]
 A == Len(pre)
 B == Len(inner)
 PostR  == Shift(Ref(post, 1), A + B)
 InnerR == Shift(Ref(inner, 1), A)            \* a complete, isolated search of the inner recipe
 WrapperMatches == w = "none" \/ Matches([c |-> w, h |-> "plain"])
+\* a terminal refusal inside the inner retort leaves it as a terminal refusal: the outer search stops as well
 RetortAt == IF ~WrapperMatches THEN PostR
-            ELSE IF InnerR.ok THEN InnerR
+            ELSE IF InnerR.ok \/ InnerR.ab THEN InnerR
             ELSE [PostR EXCEPT !.log = InnerR.log \o @]
 RECURSIVE RefPre(_)
 RefPre(from) ==
   IF from > Len(pre) THEN RetortAt
   ELSE LET p == pre[from] IN
        IF ~Matches(p) THEN RefPre(from + 1)
-       ELSE IF p.h = "plain" THEN [ok |-> TRUE, term |-> <<from>>, log |-> <<from>>]
+       ELSE IF p.h = "plain" THEN [ok |-> TRUE, term |-> <<from>>, log |-> <<from>>, ab |-> FALSE]
+       ELSE IF p.h = "abort" THEN [ok |-> FALSE, term |-> <<>>, log |-> <<from>>, ab |-> TRUE]
        ELSE LET n == RefPre(from + 1) IN
             IF p.h = "decline" THEN [n EXCEPT !.log = <<from>> \o @]
-            ELSE IF n.ok THEN [ok |-> TRUE, term |-> Compose(p.h, from, n.term), log |-> <<from>> \o n.log]
-                 ELSE [ok |-> FALSE, term |-> <<>>, log |-> (<<from>> \o n.log) \o n.log]
+            ELSE IF n.ok THEN [ok |-> TRUE, term |-> Compose(p.h, from, n.term), log |-> <<from>> \o n.log, ab |-> FALSE]
+                 ELSE IF n.ab THEN [ok |-> FALSE, term |-> <<>>, log |-> <<from>> \o n.log, ab |-> TRUE]
+                 ELSE [ok |-> FALSE, term |-> <<>>, log |-> (<<from>> \o n.log) \o n.log, ab |-> FALSE]
 RefNest == RefPre(1)
 
 \* which retort's options govern the loader that serves the request?  Options are requests like any other
@@ -82,6 +85,7 @@ ServedByInnerGetsInnerOptions == (phase = "done" /\ ServedByInner) => GoverningS
 (* ------------------------------ model-level properties ------------------------------ *)
 Flat == (pre \o inner) \o post
 InnerChains == \E k \in 1..Len(inner) : inner[k].h \in {"first", "last", "deleg"}
+\* (a terminal refusal is not confined to the inner retort, so it flattens as well)
 \* a nested retort whose providers do not chain is indistinguishable from its recipe spliced in place
 FlatWhenNoInnerChain == (phase = "done" /\ w = "none" /\ ~InnerChains) =>
                            LET f == Ref(Flat, 1) IN f.ok = RefNest.ok /\ f.term = RefNest.term /\ f.log = RefNest.log
